@@ -434,6 +434,7 @@ func (in *Interp) runPath(prefix []Dec) {
 		defer func() { in.executing = false }()
 		defer func() {
 			r := recover()
+			in.executing = false
 			if r == nil {
 				return
 			}
